@@ -138,7 +138,7 @@ func (c *Cluster) converged(members map[uint64]bool) convState {
 			st.why = fmt.Sprintf("node %d keeps %d unstable entries / unstable snapshot %v unacknowledged", n.id, len(d.UnstableEntries), d.UnstableSnapshot != nil)
 			return st
 		}
-		if n.app.stage != 0 || len(n.app.appendQ) > 0 || len(n.app.applyQ) > 0 {
+		if n.app.stage != 0 || len(n.app.appendQ) > 0 || len(n.app.applyQ) > 0 || len(n.app.ackQ) > 0 {
 			st.why = fmt.Sprintf("node %d has storage work in progress", n.id)
 			return st
 		}
@@ -221,6 +221,10 @@ func (c *Cluster) debugState(tag string) {
 	if os.Getenv("VERIF_HEAL_DEBUG") == "" {
 		return
 	}
+	c.debugStateAlways(tag)
+}
+
+func (c *Cluster) debugStateAlways(tag string) {
 	fmt.Fprintf(os.Stderr, "-- %s net=%d\n", tag, len(c.net))
 	for _, id := range c.ids {
 		n := c.nodes[id]
